@@ -166,7 +166,7 @@ def _is_generalized_ppt_dim_list(num_partite):
     return ret
 
 
-def is_generalized_ppt(rho, dim, return_info=False):
+def is_generalized_ppt(rho, dim, return_info=False, eps=1e-10):
     '''Generalized Positive Partial Transpose (PPT)
 
     The generalized partial transposition criterion for separability of multipartite quantum states
@@ -195,9 +195,9 @@ def is_generalized_ppt(rho, dim, return_info=False):
         tmp1 = rho.transpose(*dim0, *dim1).reshape(tmp0, -1)
         # nuclear norm: sum of singular values
         ret.append((dim0, dim1, np.linalg.norm(tmp1, ord='nuc')))
-        if (not return_info) and (ret[-1][2]>1):
+        if (not return_info) and (ret[-1][2]>(1+eps)): #tolerance: product states sit exactly on the bound
             break
-    tag = all(x[2]<=1 for x in ret)
+    tag = all(x[2]<=(1+eps) for x in ret)
     ret = (tag,ret) if return_info else tag
     return ret
 
